@@ -189,3 +189,64 @@ def class_named(tree, name):
 def all_returns(fn):
     from .source import walk_no_nested
     return [n for n in walk_no_nested(fn) if isinstance(n, ast.Return)]
+
+
+def _always_exits(stmts):
+    """the block cannot fall through (ends in return / raise / continue / break on every path, syntactically)"""
+    if not stmts:
+        return False
+    last = stmts[-1]
+    if isinstance(last, (ast.Return, ast.Raise, ast.Continue, ast.Break)):
+        return True
+    if isinstance(last, ast.If):
+        return _always_exits(last.body) and _always_exits(last.orelse)
+    return False
+
+
+def dominating_conditions(node, stop=None):
+    """[(test, polarity)] known to hold when `node` executes: tests of enclosing if/elif branches, operands to the left in an `and`, and the negation of every
+    earlier sibling `if` whose body always exits (guard clauses).  Conjunctions / negated disjunctions are flattened into their atoms."""
+    out = []
+    cur = node
+    while cur is not stop and getattr(cur, '_parent', None) is not None:
+        par = cur._parent
+        if isinstance(par, ast.If):
+            if cur in par.body:
+                out.append((par.test, True))
+            elif cur in par.orelse:
+                out.append((par.test, False))
+        elif isinstance(par, ast.IfExp):
+            if cur is par.body:
+                out.append((par.test, True))
+            elif cur is par.orelse:
+                out.append((par.test, False))
+        elif isinstance(par, ast.BoolOp):
+            i = par.values.index(cur) if cur in par.values else 0
+            for v in par.values[:i]:
+                out.append((v, isinstance(par.op, ast.And)))
+        # guard clauses before this statement in the same block
+        for field in ('body', 'orelse', 'finalbody'):
+            blk = getattr(par, field, None)
+            if isinstance(blk, list) and cur in blk:
+                for st in blk[:blk.index(cur)]:
+                    if isinstance(st, ast.If) and _always_exits(st.body) and not st.orelse:
+                        out.append((st.test, False))
+                    elif isinstance(st, ast.If) and st.orelse and _always_exits(st.orelse) and not _always_exits(st.body):
+                        out.append((st.test, True))
+        cur = par
+    flat = []
+
+    def add(t, pol):
+        if isinstance(t, ast.UnaryOp) and isinstance(t.op, ast.Not):
+            add(t.operand, not pol)
+        elif isinstance(t, ast.BoolOp) and isinstance(t.op, ast.And) and pol:
+            for v in t.values:
+                add(v, True)
+        elif isinstance(t, ast.BoolOp) and isinstance(t.op, ast.Or) and not pol:
+            for v in t.values:
+                add(v, False)
+        else:
+            flat.append((t, pol))
+    for t, pol in out:
+        add(t, pol)
+    return flat
